@@ -1,6 +1,7 @@
 """C05 -- parser error discipline: only ParserError, with a usable line number."""
 from __future__ import annotations
 
+import os
 import random
 import signal
 
@@ -34,7 +35,7 @@ REQUIRED_SEEN = {"fault_kind": ["second_feature", "text_after_steps", "examples_
                                 "but_without_predecessor", "ragged_table_row", "malformed_tag", "second_background",
                                 "docstring_before_step", "table_before_step", "background_after_scenario", "tags_entry_malformed_tag",
                                 "tags_entry_tag_expected"],
-                 "entry_point": ENTRY_POINTS}
+                 "entry_point": ENTRY_POINTS, "trailing_colon_option": ["yes", "no"]}
 EXHAUSTIVE = True
 EXHAUSTIVE_SCOPE = "every catalogued fault kind at every position of each generated document where it is a fault; every single-line mutation of each generated document"
 NSHARDS = {"quick": 16, "thorough": 16}
@@ -125,7 +126,7 @@ def line_pool(kws, rng):
     pool += ["| a | b |", "| 1 | 2 |", "| 1 |", "| 1 | 2 | 3 |", "|", "||", "| a | b", "  | x \\| y | z |", "| \\", "|a|b|"]
     pool += ['"""', "'''", '  """', '"""text', "   '''", '""" trailing', 'x """']
     pool += ["# comment", "#", "# language: en", "# language: de", "# language: zz", "# language:", "#language:fr", "# Language: ru",
-             "  # language: en", "# language: DE", "# language: En", "# language: zh-cn", "# language: EN-PIRATE", "# language: de "]
+             "  # language: en", "# language: {de}", "@fixture.{name} notatag", "@t{0} @u{}", "  {\"k\": 1}", "# language: DE", "# language: En", "# language: zh-cn", "# language: EN-PIRATE", "# language: de "]
     pool += ["free text", "  indented text", "Feature", "Scenario", "Given", "And", "* ", "*", ":", "::", "\t", "   ", "",
              "Ünïcödé", "Examples", "Rule", "Background"]
     return pool
@@ -228,7 +229,7 @@ def fault_injection(mon, P, rng, ndocs, i18n):
                             injections.append(("ragged_table_row", rl, "      |" + " x |" * (ncol + 1), rl))
                 if it.get("tags"):
                     tl = lines[k + ("tag", 0)]
-                    injections.append(("malformed_tag", tl, rng.choice(["  @ok notatag", "  @bug#7 notatag", "  @c# @ok nota#tag"]), tl))
+                    injections.append(("malformed_tag", tl, rng.choice(["  @ok notatag", "  @bug#7 notatag", "  @c# @ok nota#tag", "  @fixture.{name} nota{tag}", "  @ok {0}"]), tl))
             if c["items"] and c["items"][0]["kind"] != "rule":
                 k0 = key + ("item", 0)
                 it0 = c["items"][0]
@@ -308,7 +309,7 @@ def fault_injection(mon, P, rng, ndocs, i18n):
             tl = [rng.choice(pool) for _ in range(rng.randint(1, 6))]
             at = rng.randrange(len(tl) + 1)
             kind = rng.choice(["malformed_tag", "tag_expected"])
-            tl.insert(at, rng.choice(["  @ok notatag", "  @bug#7 notatag"]) if kind == "malformed_tag" else "  notatag @x")
+            tl.insert(at, rng.choice(["  @ok notatag", "  @bug#7 notatag", "  @f.{name} nota{tag}"]) if kind == "malformed_tag" else rng.choice(["  notatag @x", "  {not} a tag"]))
             t3 = "\n".join(tl)
             k, val = call(P.parse_tags, t3)
             mon.case(("fault", "tags", t3), True)
@@ -403,12 +404,41 @@ def parser_reuse(mon, P, rng, n, i18n):
                   lambda: dict(history=hist2, text=stext, outcome=kind, exception=repr(val) if kind != "ok" else None))
 
 
+UNUSUAL_BUT_LEGAL = [
+    "Feature: f\n  Scenario Outline: no steps\n    Examples:\n      | x |\n      | 1 |\n",
+    "Feature: f\n  Scenario Outline: no steps\n    Examples: one\n      | x |\n      | 1 |\n    Examples: two\n      | x |\n",
+    "Feature: f\n  Rule: r\n    Scenario Template: t\n      Examples:\n        | a | b |\n        | 1 | 2 |\n    Scenario: after\n      Given x:\n",
+    "Feature: only a title\n",
+    "Feature: f\n  Background:\n  Scenario: s\n    Given step with colon:\n      | a |\n      | 1 |\n",
+    "Feature: f\n  Scenario: s\n    Given step with colon:\n      \"\"\"\n      text\n      \"\"\"\n",
+]
+
+
+def unusual_documents(mon, P):
+    """Legal documents of unusual shape, with and without trailing text that is a fault: a model or a ParserError, nothing else."""
+    for doc in UNUSUAL_BUT_LEGAL:
+        for tail in ("", "free text that is not a step\n", "Feature: again\n", "      | 1 |\n"):
+            for ep in ("feature", "rule", "scenario", "steps"):
+                text = doc + tail
+                if ep != "feature":
+                    text = "\n".join(text.split("\n")[1:])      # fragment entry points get the text below the Feature line
+                check_text(mon, P, ep, text, monitor="discipline")
+
+
 def run(spec, mon):
+    if spec["shard"] % 4 == 3:
+        # the documented environment option (read when behave.parser is imported): steps may end with a colon
+        os.environ["BEHAVE_STRIP_STEPS_WITH_TRAILING_COLON"] = "yes"
+        mon.seen("trailing_colon_option", "yes")
+    else:
+        os.environ.pop("BEHAVE_STRIP_STEPS_WITH_TRAILING_COLON", None)
+        mon.seen("trailing_colon_option", "no")
     from behave import parser as P, i18n
     import logging
     logging.getLogger("behave").disabled = True      # 'Malformed table row' warnings are by design
     tier = spec.get("tier", "quick")
     rng = random.Random(spec["seed"])
+    unusual_documents(mon, P)
     soups(mon, P, rng, 3500 if tier == "quick" else 200000, i18n)
     mutations(mon, P, rng, 3 if tier == "quick" else 150, i18n)
     fault_injection(mon, P, rng, 12 if tier == "quick" else 700, i18n)
